@@ -1,4 +1,5 @@
 import Mathlib.Tactic.Ring
+import QscModel.Attr
 import Lean
 /-! `abstract_apps f`: replace every application `f x` occurring in the goal by a fresh variable (largest terms first),
 so that arithmetic normalisation (`field_simp`, `ring`) treats `np.matmul(d_d_varphi, ·)` results as atoms and
@@ -34,3 +35,11 @@ whose content is "this attribute is that function of those quantities") -/
 macro "ring_congr" : tactic =>
   `(tactic| first | rfl | ring1 | (congr 1 <;> first | rfl | ring1 | (congr 1 <;> first | rfl | ring1 |
       (congr 1 <;> first | rfl | ring1 | (congr 1 <;> first | rfl | ring1 | (congr 1 <;> first | rfl | ring1))))))
+
+/-- `qsc_rfl [extra defs]`: "this generated attribute is that spelled-out formula".  On the pinned tree it is `rfl`; after an
+algebraically equivalent re-spelling of the source it unfolds every generated definition on both sides and closes the
+goal up to ring normalisation of corresponding arguments. -/
+syntax "qsc_rfl" ("[" Lean.Parser.Tactic.simpLemma,* "]")? : tactic
+macro_rules
+  | `(tactic| qsc_rfl) => `(tactic| first | rfl | (simp only [qsc_gen] <;> ring_congr))
+  | `(tactic| qsc_rfl [$ts,*]) => `(tactic| first | rfl | (simp only [qsc_gen, $ts,*] <;> ring_congr))
